@@ -13,6 +13,7 @@
    kind "c02": bottlenecks of one kernel
        lines   <<[tp, alts]>> ; opt1 / opt2 = totals after one / two passes (absent if not run)
        family  1 iff the kernel belongs to the bounded family of the statement (Within15 applies)
+       uni     (optional) totals reported under uniform scheduling, used as the reference bottleneck
    Every clause is a definition of PortModel.tla. *)
 EXTENDS PortModel, Json, IOUtils
 Cases == ndJsonDeserialize(IOEnv.CASES)
@@ -31,7 +32,10 @@ LineClause(c, l) ==
   ELSE IF \E a \in DOMAIN l.alts : FeasClause(l.row, l.alts[a], Eps(c, l.alts[a]), c.np) = "ok"
        THEN (IF c.passes = 0 /\ ~\E a \in DOMAIN l.alts : l.row = UniformRow(l.alts[a], c.np)
              THEN "not-uniform-split" ELSE "ok")
-  ELSE FeasClause(l.row, l.alts[1], Eps(c, l.alts[1]), c.np)
+  ELSE \* name the clause for the alternative the code says it selected, else for the first one
+       LET sel == IF Has(l, "obs") /\ Len(l.obs) = 1 /\ \E a \in DOMAIN l.alts : l.alts[a] = l.obs[1]
+                  THEN MinSet({ a \in DOMAIN l.alts : l.alts[a] = l.obs[1] }) ELSE 1
+       IN FeasClause(l.row, l.alts[sel], Eps(c, l.alts[sel]), c.np)
 C01Clause(c) ==
   LET bad == { i \in DOMAIN c.lines : LineClause(c, c.lines[i]) # "ok" } IN
   IF bad # {} THEN LET i == MinSet(bad) IN <<LineClause(c, c.lines[i]), i>>
@@ -55,6 +59,8 @@ UniLines(c, f) == [ i \in DOMAIN c.lines |->
 \* bottleneck of uniform 1/N scheduling: upper neighbour at rounding ties, weakest over alternatives
 UniBottleneck(c) ==
   MaxSet({ MaxSet(UNION { Round2(ColSum(UniLines(c, f), q)) : q \in 1..c.np }) : f \in Choices(c) })
+\* reference: computed from the micro-ops, or (shipped models) the uniform totals the code reported
+UniRef(c) == IF Has(c, "uni") THEN MaxSeq(c.uni) ELSE UniBottleneck(c)
 Bott(t) == MaxSeq(t)
 \* the optimum is a lower bound whichever alternatives are selected: weakest = some choice
 NotBelowHall(c, t) == \E f \in Choices(c) : AtLeastHall(Bott(t), KUops(c, f), STEP)
@@ -62,8 +68,8 @@ Within15(c, t) == \E f \in Choices(c) : AtMostHallPlus(Bott(t), KUops(c, f), 15 
 C02Representable(c) == \A i \in DOMAIN c.lines : AltsRepresentable(c.lines[i])
 C02Clause(c) ==
   IF ~C02Representable(c) THEN <<"unrepresentable", 0>>
-  ELSE IF Has(c, "opt1") /\ Bott(c.opt1) > UniBottleneck(c) THEN <<"worse-than-uniform", 1>>
-  ELSE IF Has(c, "opt2") /\ Bott(c.opt2) > UniBottleneck(c) THEN <<"worse-than-uniform", 2>>
+  ELSE IF Has(c, "opt1") /\ Bott(c.opt1) > UniRef(c) THEN <<"worse-than-uniform", 1>>
+  ELSE IF Has(c, "opt2") /\ Bott(c.opt2) > UniRef(c) THEN <<"worse-than-uniform", 2>>
   ELSE IF Has(c, "opt1") /\ ~NotBelowHall(c, c.opt1) THEN <<"below-optimum", 1>>
   ELSE IF Has(c, "opt2") /\ ~NotBelowHall(c, c.opt2) THEN <<"below-optimum", 2>>
   ELSE IF c.family = 1 /\ Has(c, "opt2") /\ ~Within15(c, c.opt2) THEN <<"not-within-0.15", 2>>
